@@ -351,7 +351,10 @@ struct C18 : vf::Engine {
                     for (int sb = 0; sb < nsub; ++sb) { if (nd.m.subStage[sb] > 3) { for (int st = 4; st <= nd.m.subStage[sb]; ++st) nd.m.stageInv[sb][st] = nd.m.seq; nd.m.subStage[sb] = 3; } }
                     if (nd.m.sysStage > 3) nd.m.sysStage = 3; ++nd.m.seq;
                     // nothing computed in the source counts as computed in the copy unless it depends only on what was copied
-                    for (size_t i = 0; i < ces.size(); ++i) if (nd.m.ce[i].exists) { if (ces[i].earliest > 3) nd.m.ce[i].marked = -1; else nd.m.ce[i].unknown = true; }
+                    for (size_t i = 0; i < ces.size(); ++i) if (nd.m.ce[i].exists) { if (ces[i].earliest > 3) nd.m.ce[i].marked = -1;
+                        // an entry that depends only on what is copied may or may not count as computed in the copy, but a copy never makes
+                        // valid what was invalid in the source at that moment (explicitly un-marked, prerequisite changed, stage too low)
+                        else if (modelValid(src.m, (int)i)) nd.m.ce[i].unknown = true; }
                     nd.upd = src.upd; for (auto& kv : nd.upd) kv.second.marked = -1;
                     nd.lastQv = nd.lastUv = nd.lastZv = -1; nd.seenQ = nd.seenU = nd.seenZ = 0;
                     dst = std::move(nd); haveB = true;
